@@ -12,6 +12,7 @@
           topology guarantee (the rule and its gates are those of C08 POSTORIENT; found F15).
  ELEMKEEP  (vertex-set clause, structural part) in the batch de-duplication family every input vertex taken out of
           the input is handed on by value or dropped behind a duplicate verdict - no path loses one silently.
+ TWIN     a constructor path and its `*_with_construction_statistics` twin call the same Delaunay verifiers.
 Not decided: that the verifiers are themselves right (C04/C05), ball/convexity, the vertex-set and
 statistics clauses; Pseudomanifold gets no Level-3 gate at completion by design (noted)."""
 import flow
@@ -76,6 +77,43 @@ def run(ctx):
             if cfg == ctx.cfgs[0] and n <= 4:
                 ctx.sample({'rule': 'CERT', 'constructor': q, 'certified': ok})
         ctx.floor('exported batch constructors', 11, n, cfg)
+        # TWIN: every constructor path exists twice (plain / *_with_construction_statistics); the twins must certify with
+        # the same verifiers (a cheaper verifier in one of them silently weakens that half of the API)
+        ctx.rule('TWIN', 'a function and its *_with_construction_statistics twin gate their Ok on the same Delaunay verifiers')
+        nt = 0
+        SUF = '_with_construction_statistics'
+        for q in sorted(prog.bodies):
+            if not q.endswith(SUF) or prog.bodies[q].kind == 'closure':
+                continue
+            base = q[:-len(SUF)]
+            if base not in prog.bodies:
+                # e.g. new_with_options_and_construction_statistics <-> new_with_options
+                alt = q.replace('_and_construction_statistics', '')
+                base = alt if alt in prog.bodies and alt != q else None
+            if base is None:
+                continue
+
+            def verifier_calls(fq):
+                out = set()
+                for bq in [fq] + [c for c in prog.children.get(fq, [])]:
+                    bb_ = prog.bodies.get(bq)
+                    if bb_ is None:
+                        continue
+                    for _, t in bb_.calls():
+                        for nme in (t.resolved, t.callee):
+                            if nme in gates:
+                                out.add(nme)
+                return out
+            va, vb = verifier_calls(base), verifier_calls(q)
+            if not va and not vb:
+                continue
+            nt += 1
+            ctx.ob('TWIN', base, cfg, va == vb,
+                   'both use %s' % sorted(x.rsplit('::', 1)[-1] for x in va) if va == vb else
+                   '%s certifies with %s but its statistics twin with %s' % (
+                       base.rsplit('::', 1)[-1], sorted(x.rsplit('::', 1)[-1] for x in va), sorted(x.rsplit('::', 1)[-1] for x in vb)),
+                   site='%s:%d' % (prog.bodies[q].file, prog.bodies[q].line))
+        ctx.floor('constructor twins that call a verifier directly', 2, nt, cfg)
         ctx.info.setdefault('certified_bodies', {})[cfg] = sorted(C)
         # PLGATE
         m = 0
